@@ -830,3 +830,170 @@ Proof.
       destruct (Hbl b Hb p Hp) as (Hget & Ef & Hfs').
       apply (Hn _ _ (snd (fst b)) Hget). rewrite Ef, <- surjective_pairing. exact Hfs'.
 Qed.
+
+(* ---- lossless on trimmed series when the span covers them ---- *)
+Hypothesis miss_is_miss : is_miss A (miss A) = true.
+
+Lemma all_miss_missrow' n : all_miss A (missrow A n) = true.
+Proof. unfold all_miss, missrow. apply forallb_forall. intros x Hx. apply repeat_spec in Hx. now subst. Qed.
+
+Lemma row_at_first (s : series) st : s_start s = Some st -> s_data s <> [] -> row_at A s st = hd [] (s_data s).
+Proof.
+  intros Es Hne. unfold row_at. rewrite Es, Z.ltb_irrefl, Z.sub_diag. simpl.
+  destruct (s_data s); [contradiction|reflexivity].
+Qed.
+
+Lemma nth_pred_last {T} (l : list T) d d' : l <> [] -> nth (length l - 1) l d = last l d'.
+Proof.
+  induction l as [|x r IH]; intros H; [contradiction|]. destruct r as [|y r]; [reflexivity|].
+  replace (length (x :: y :: r) - 1)%nat with (S (length (y :: r) - 1)) by (simpl; lia).
+  specialize (IH ltac:(discriminate)). set (k := (length (y :: r) - 1)%nat) in *.
+  change (nth (S k) (x :: y :: r) d) with (nth k (y :: r) d). rewrite IH. reflexivity.
+Qed.
+
+Lemma last_map' {X Y} (f : X -> Y) l d : last (map f l) (f d) = f (last l d).
+Proof. induction l as [|x r IH]; [reflexivity|]. destruct r; [reflexivity|]. exact IH. Qed.
+
+Lemma row_at_last (s : series) st : s_start s = Some st -> s_data s <> [] ->
+  row_at A s (st + Z.of_nat (length (s_data s)) - 1) = last (s_data s) [].
+Proof.
+  intros Es Hne. unfold row_at. rewrite Es.
+  assert (Hpos : (0 < length (s_data s))%nat) by (destruct (s_data s); [contradiction|simpl; lia]).
+  destruct (Z.ltb_spec (st + Z.of_nat (length (s_data s)) - 1) st) as [H|H]; [lia|].
+  replace (Z.to_nat (st + Z.of_nat (length (s_data s)) - 1 - st)) with (length (s_data s) - 1)%nat by lia.
+  now apply nth_pred_last.
+Qed.
+
+(* a trimmed, well-formed series is determined by its period -> row map *)
+Lemma trimmed_ext (s1 s2 : series) : WF A s1 -> WF A s2 -> Trimmed A s1 -> Trimmed A s2 -> s_nv s1 = s_nv s2 ->
+  (forall t, row_at A s1 t = row_at A s2 t) -> s_start s1 = s_start s2 /\ s_data s1 = s_data s2.
+Proof.
+  intros W1 W2 T1 T2 Hnv Hrow. unfold Trimmed in *.
+  destruct (s_start s1) as [a|] eqn:E1; destruct (s_start s2) as [b|] eqn:E2.
+  - destruct T1 as (N1 & F1 & L1). destruct T2 as (N2 & F2 & L2).
+    set (e1 := a + Z.of_nat (length (s_data s1)) - 1). set (e2 := b + Z.of_nat (length (s_data s2)) - 1).
+    assert (En1 : s_end A s1 = Some e1) by (unfold s_end; now rewrite E1).
+    assert (En2 : s_end A s2 = Some e2) by (unfold s_end; now rewrite E2).
+    assert (Hab : a = b).
+    { destruct (Z.lt_trichotomy a b) as [H|[H|H]]; [|assumption|].
+      - exfalso. rewrite <- (row_at_first s1 a E1 N1), Hrow in F1.
+        rewrite (row_at_outside A s2 a b e2 E2 En2) in F1 by lia. rewrite all_miss_missrow' in F1. discriminate.
+      - exfalso. rewrite <- (row_at_first s2 b E2 N2), <- Hrow in F2.
+        rewrite (row_at_outside A s1 b a e1 E1 En1) in F2 by lia. rewrite all_miss_missrow' in F2. discriminate. }
+    subst b.
+    assert (Hee : e1 = e2).
+    { destruct (Z.lt_trichotomy e1 e2) as [H|[H|H]]; [|assumption|].
+      - exfalso. unfold e2 in *. rewrite <- (row_at_last s2 a E2 N2), <- Hrow in L2.
+        rewrite (row_at_outside A s1 _ a e1 E1 En1) in L2 by (fold e2; lia). rewrite all_miss_missrow' in L2. discriminate.
+      - exfalso. unfold e1 in *. rewrite <- (row_at_last s1 a E1 N1), Hrow in L1.
+        rewrite (row_at_outside A s2 _ a e2 E2 En2) in L1 by (fold e1; lia). rewrite all_miss_missrow' in L1. discriminate. }
+    split; [reflexivity|].
+    rewrite (data_as_map A s1 a W1 E1), (data_as_map A s2 a W2 E2).
+    assert (Hlen : length (s_data s1) = length (s_data s2)) by (unfold e1, e2 in Hee; lia).
+    rewrite Hlen. apply map_ext. exact Hrow.
+  - exfalso. destruct T1 as (N1 & F1 & _). rewrite <- (row_at_first s1 a E1 N1), Hrow in F1.
+    rewrite (row_at_empty A s2 a E2), all_miss_missrow' in F1. discriminate.
+  - exfalso. destruct T2 as (N2 & F2 & _). rewrite <- (row_at_first s2 b E2 N2), <- Hrow in F2.
+    rewrite (row_at_empty A s1 b E1), all_miss_missrow' in F2. discriminate.
+  - split; [reflexivity|]. now rewrite T1, T2.
+Qed.
+
+(* the series with every value rounded *)
+Definition rounded (s : series) : series := mkSeries (s_freq s) (s_start s) (s_nv s) (map (map rnd) (s_data s)).
+
+Theorem imp_series_identity ps (s : series) st :
+  (forall x, is_miss A (rnd x) = is_miss A x) ->
+  WF A s -> Trimmed A s -> s_start s = Some st ->
+  (forall t, st <= t < st + Z.of_nat (length (s_data s)) -> In t ps) ->
+  imp_series (s_freq s) ps s = rounded s.
+Proof.
+  intros Hrnd Hwf Htr Es Hcover.
+  assert (Hrm : rnd (miss A) = miss A) by (apply miss_law; now rewrite Hrnd).
+  assert (Hmr : forall n, map rnd (missrow A n) = missrow A n).
+  { intros n. unfold missrow. induction n; simpl; [reflexivity|]. now rewrite Hrm, IHn. }
+  assert (Ham : forall r, all_miss A (map rnd r) = all_miss A r).
+  { intros r. unfold all_miss. induction r as [|x r IH]; simpl; [reflexivity|]. now rewrite Hrnd, IH. }
+  set (s2 := rounded s).
+  assert (W2 : WF A s2).
+  { destruct Hwf as [Hrows Hnone]. split; [|intros H; unfold s2, rounded in *; cbn [s_start s_data] in *; now rewrite (Hnone H)].
+    unfold s2, rounded. cbn [s_data s_nv]. apply Forall_forall. intros r Hr. apply in_map_iff in Hr as (r0 & <- & Hr0).
+    rewrite map_length. eapply Forall_forall in Hrows; eauto. }
+  assert (T2 : Trimmed A s2).
+  { unfold Trimmed in *. unfold s2, rounded. cbn [s_start s_data]. rewrite Es in *. destruct Htr as (N & F & L).
+    split; [intros H; apply map_eq_nil in H; contradiction|].
+    destruct (s_data s) as [|r0 rr] eqn:Ed; [contradiction|]. split.
+    - cbn [map hd]. rewrite Ham. exact F.
+    - rewrite <- Ed in *. replace (@nil V) with (map rnd (@nil V)) by reflexivity.
+      rewrite last_map'. rewrite Ham. exact L. }
+  assert (R2 : forall t, row_at A s2 t = map rnd (row_at A s t)).
+  { intros t. unfold row_at, s2, rounded. cbn [s_start s_data s_nv]. rewrite Es.
+    destruct (t <? st); [now rewrite Hmr|]. rewrite <- (Hmr (s_nv s)) at 1. apply map_nth. }
+  destruct (imp_series_spec (s_freq s) ps s Hwf) as (W1 & T1 & Nv1 & R1 & F1).
+  assert (Hext : forall t, row_at A (imp_series (s_freq s) ps s) t = row_at A s2 t).
+  { intros t. rewrite R1, R2. destruct (in_dec Z.eq_dec t ps) as [Hin|Hout]; [reflexivity|].
+    rewrite (row_at_outside A s t st (st + Z.of_nat (length (s_data s)) - 1) Es); [now rewrite Hmr| |].
+    - unfold s_end. now rewrite Es.
+    - destruct (Z.lt_ge_cases t st); [now left|]. destruct (Z.lt_ge_cases (st + Z.of_nat (length (s_data s)) - 1) t); [now right|].
+      exfalso. apply Hout. apply Hcover. lia. }
+  destruct (trimmed_ext _ _ W1 W2 T1 T2 Nv1 Hext) as [Hst Hdat].
+  destruct (imp_series (s_freq s) ps s) as [fr0 st0 nv0 dat0] eqn:Ei. cbn [s_start s_data s_nv s_freq] in *.
+  unfold s2, rounded in *. cbn [s_start s_data] in Hst, Hdat. subst st0 dat0 nv0. f_equal.
+  apply F1. rewrite Es. discriminate.
+Qed.
+
+End CsvProofs.
+
+(* ---- the frequency marks written by the export are recognised by the import ---- *)
+Lemma marks_roundtrip f : In f (map snd freq_members) -> is_start (mark_of_freq f) = Some f.
+Proof.
+  assert (H : forallb (fun p => match is_start (mark_of_freq (snd p)) with Some g => g =? snd p | None => false end)
+                      freq_members = true) by (vm_compute; reflexivity).
+  intros Hin. apply in_map_iff in Hin as (p & <- & Hp).
+  rewrite forallb_forall in H. specialize (H p Hp).
+  destruct (is_start (mark_of_freq (snd p))) as [g|]; [|discriminate]. apply Z.eqb_eq in H. now subst.
+Qed.
+
+(* ---- a concrete instance: non-vacuity, and the stated exceptions are real ---- *)
+From Verif Require Import lib.ArithOptZ.
+
+Module CsvExamples.
+Definition fp (f t : Z) : string := if t =? 0 then "t0" else if t =? 1 then "t1" else "t2".
+Definition pp (f : Z) (c : string) : option Z :=
+  if String.eqb c "t0" then Some 0 else if String.eqb c "t1" then Some 1 else if String.eqb c "t2" then Some 2 else None.
+Definition fv (x : option Z) : string := match x with Some 1 => "1" | Some 2 => "2" | Some _ => "3" | None => "?" end.
+Definition pv (c : string) : option Z :=
+  if String.eqb c "1" then Some 1 else if String.eqb c "2" then Some 2 else if String.eqb c "3" then Some 3 else None.
+Definition opts (d : bool) : wopts := mkWopts None default_fspan d "".
+Definition ser (rows : list (list (option Z))) : series OZArith := mkSeries (A:=OZArith) 4 (Some 0) 1%nat rows.
+Definition roundtrip (d : bool) (db : databox OZArith) : res (databox OZArith) :=
+  import OZArith pp pv d (export OZArith fp fv (fun x => x) db (opts d)).
+
+Example roundtrip_ok :
+  roundtrip true [("a"%string, ISer OZArith "about a" (ser [[Some 1]; [None]; [Some 2]]));
+                  ("k"%string, INon (@EScal OZArith (Some 3)))]
+  = Ok [("a"%string, ISer OZArith "about a" (ser [[Some 1]; [None]; [Some 2]]))].
+Proof. vm_compute. reflexivity. Qed.
+
+(* a name starting with "__" ends its block: the series (and its neighbours) are not read back *)
+Example dunder_name_lost :
+  roundtrip false [("__x"%string, ISer OZArith "" (ser [[Some 1]])); ("b"%string, ISer OZArith "" (ser [[Some 2]]))] = Ok [].
+Proof. vm_compute. reflexivity. Qed.
+
+(* a name "*" is read as a continuation column, an empty name is skipped *)
+Example star_name_lost :
+  roundtrip false [("*"%string, ISer OZArith "" (ser [[Some 1]])); (""%string, ISer OZArith "" (ser [[Some 1]]));
+                   ("b"%string, ISer OZArith "" (ser [[Some 2]]))]
+  = Ok [("b"%string, ISer OZArith "" (ser [[Some 2]]))].
+Proof. vm_compute. reflexivity. Qed.
+
+(* a series without any observation comes back empty: no span, no frequency, no description *)
+Example all_missing_comes_back_empty :
+  roundtrip true [("a"%string, ISer OZArith "about a" (ser [[None]; [None]])); ("b"%string, ISer OZArith "about b" (ser [[Some 2]]))]
+  = Ok [("a"%string, ISer OZArith "" (empty_series OZArith 1)); ("b"%string, ISer OZArith "about b" (ser [[Some 2]]))].
+Proof. vm_compute. reflexivity. Qed.
+
+(* a sheet holding nothing but empty series has no data row: the import raises *)
+Example only_empty_series_raises :
+  roundtrip false [("e"%string, ISer OZArith "" (empty_series OZArith 1))] = Err 5.
+Proof. vm_compute. reflexivity. Qed.
+End CsvExamples.
